@@ -722,3 +722,95 @@ func randTree(r *gen.Rand, depth int) Node {
 	}
 	return nArr(gen.Pick(r, aggTypes), a...)
 }
+
+// genShapedSmall: a well-shaped reply small enough for an exhaustive deformation sweep
+func genShapedSmall(r *gen.Rand) Shaped {
+	for k := 0; ; k++ {
+		s := genShaped(r)
+		n := 0
+		s.Tree.walk(func(*Node) { n++ })
+		if n <= 26 || k > 20 {
+			return s
+		}
+	}
+}
+
+type deformation struct {
+	t   Node
+	how string
+}
+
+// replacement kinds: every kind of scalar and aggregate, incl. empty string, empty array, nil
+func replacements() []Node {
+	return []Node{blob(""), blob("x"), blob("1.5"), nStr('+', "OK"), integer(0), integer(7), null(), nInt('#', 1), dbl(2.5),
+		nStr('-', "ERR boom"), nStr('!', "SYNTAX x"), nStr('(', "12345678901234567890"), nStr('=', "txt:a"),
+		arr(), mp(), nArr('~'), nArr('>'), arr(blob("a")), arr(blob("a"), blob("b")), mp(blob("a")), mp(blob("a"), blob("b")), arr(arr())}
+}
+
+// deformations of a seed reply: the seed itself, every prefix of every aggregate, removal and duplication of every element,
+// every node replaced by every replacement kind, every aggregate retagged, every scalar retagged to each scalar type.
+func deformations(seed Node) []deformation {
+	out := []deformation{{seed.clone(), "seed"}}
+	var ps [][]int
+	paths(&seed, nil, &ps)
+	add := func(how string, p []int, f func(n *Node)) {
+		t := seed.clone()
+		f(at(&t, p))
+		out = append(out, deformation{t, how})
+	}
+	reps := replacements()
+	for _, p := range ps {
+		n := at(&seed, p)
+		if n.K == "a" {
+			for l := 0; l < len(n.A); l++ {
+				l := l
+				add("prefix", p, func(x *Node) { x.A = x.A[:l] })
+			}
+			for i := range n.A {
+				i := i
+				add("remove", p, func(x *Node) { x.A = append(x.A[:i:i], x.A[i+1:]...) })
+				add("duplicate", p, func(x *Node) { x.A = append(x.A[:i+1:i+1], x.A[i:]...) })
+			}
+			for _, t := range aggTypes {
+				if t != n.T {
+					t := t
+					add("retag", p, func(x *Node) { x.T = t })
+				}
+			}
+		} else {
+			for _, t := range scalarTypes {
+				if t != n.T {
+					t := t
+					add("retag", p, func(x *Node) { x.T = t })
+				}
+			}
+		}
+		for _, rep := range reps {
+			rep := rep
+			add("replace", p, func(x *Node) { *x = rep.clone() })
+		}
+	}
+	return out
+}
+
+// splitArgs splits the four top-level arguments "msg tbl fi obs" of a CTree term (each is parenthesised or a bracket list).
+func splitArgs(s string) []string {
+	var out []string
+	depth, start := 0, 0
+	inStr := false
+	for i := 0; i < len(s); i++ {
+		switch c := s[i]; {
+		case c == '"':
+			inStr = !inStr
+		case inStr:
+		case c == '(' || c == '[':
+			depth++
+		case c == ')' || c == ']':
+			depth--
+		case c == ' ' && depth == 0:
+			out = append(out, s[start:i])
+			start = i + 1
+		}
+	}
+	return append(out, s[start:])
+}
